@@ -14,7 +14,7 @@ import numpy as np
 import fsic
 
 from .. import refsolve, scripted, tlc
-from ..core.runner import Acc, guard, CaseTimeout
+from ..core.runner import Acc, guard, CaseTimeout, robust
 
 ID = 'C02'
 LEVEL = 'model_checking'
@@ -169,6 +169,10 @@ def run_traces(block, tier, acc, cls=scripted.Scripted, extra_kwargs=None, post=
                     except CaseTimeout:
                         acc.violation('trace:timeout', case, 'termination', 'no result within 5 s')
                         continue
+                    except Exception as e:
+                        acc.violation('trace:unexpected-exception:%s' % type(e).__name__, case, 'no exception', repr(e)[:300],
+                                      'replaying a model trace raised an exception this check does not expect')
+                        continue
                     if obs['k'] > 0 or obs['result'] in ('ValueError', 'SolutionError'):
                         acc.nontrivial += 1
                     if want != obs:
@@ -183,6 +187,7 @@ def run_traces(block, tier, acc, cls=scripted.Scripted, extra_kwargs=None, post=
 # --------------------------------------------------------------------------- offsets and period spellings
 
 
+@robust()
 def run_offset_case(case):
     n, t, offset, route = case['n'], case['t'], case['offset'], case.get('route', 'solve_t')
     span = ['p%d' % i for i in range(n)] if route == 'solve_period' else list(range(n))
@@ -274,6 +279,7 @@ def cat_instance(i, dv):
     return m
 
 
+@robust(1, False)
 def run_cat_case(case):
     i, dv = case['i'], case['dv']
     kw = dict(min_iter=case['min_iter'], max_iter=case['max_iter'], tol=case['tol'], offset=case['offset'],
@@ -353,6 +359,7 @@ def run_period(acc, tier):
                     acc.violation(key, case, exp, obs, what)
 
 
+@robust()
 def run_period_case(case):
     span, pos, hist = case['span'], case['pos'], case['hist']
     script = [(o, 0) for o in hist]
